@@ -473,6 +473,11 @@ def run_unit(desc):
         "bounded": [],
         "replayable": {"runner": "replayrun.py", "module": "-", "name": "C22"},
     }
+    # the monitor discipline of _subscribe_core (AST): registration, trim and replay of the retained values in ONE critical section
+    from types import SimpleNamespace
+    from .classref import subscribe_lock_discipline
+    from .loader import Loader as _Loader
+    rep["results"] = rep["results"] + subscribe_lock_discipline(SimpleNamespace(file=RFILE, cls="ReplaySubject", uid=f"{RFILE}::ReplaySubject"), _Loader())
     if desc.get("tier") == "thorough" and not h.unsupported:
         mf = must_fail()
         rep["must_fail"] = dict(mf, unit=rep["unit"])
